@@ -17,10 +17,13 @@ Obs(s) == Case.obs[s]
 Judge(s, exp) ==
   LET o == Obs(s) IN
   IF exp.k = "any" THEN {}
-  ELSE IF o.k = "exc" THEN (IF exp.k = "ok" THEN {<<"runs", FALSE>>}
+  ELSE IF o.k = "exc" THEN (IF exp.k = "ok" THEN {<<IF exp.d THEN "runs-d" ELSE "runs", FALSE>>}
                             ELSE IF exp.e # o.e THEN {<<"error-class", TRUE>>} ELSE {})
   ELSE IF exp.k = "err" THEN {<<"error", FALSE>>}
-  ELSE IF o.k = "ok" /\ o.cols = exp.cols /\ o.rows = exp.rows THEN {}
+  ELSE IF o.k = "ok" /\ o.cols = exp.cols
+          /\ (IF exp.cols = <<>> THEN o.n = Len(exp.rows)         \* no column left: only the number of rows
+              ELSE o.rows = exp.rows \/ (exp.u /\ SameBag(o.rows, exp.rows)))
+       THEN {}
   ELSE {<<"result", exp.d>>}
 \* the same table gave another outcome earlier in this run
 OrderFail(s) == \E s2 \in 1..(s - 1) : Case.order[s2] = Case.order[s] /\ Obs(s2) # Obs(s)
